@@ -655,7 +655,10 @@ def perturbed(glob=0, shift=0.0, vclock=False):
     _rb.np = _Np()
     # the monotonic / performance clocks: a run must not depend on how fast the machine is.  Both run at a rate that depends
     # on the perturbation (1 ms per reading for odd, 80 ms per reading for even values)
-    real_mono, real_perf = _time.monotonic, _time.perf_counter
+    # (only for the library's own modules: the interpreter's time.monotonic is left alone, because threading, subprocess and
+    # the JAX runtime compute their timeouts with it)
+    import sys as _sys
+
     ticks = [0]
     rate = 1e-3 if glob % 2 else 8e-2
 
@@ -663,13 +666,26 @@ def perturbed(glob=0, shift=0.0, vclock=False):
         ticks[0] += 1
         return 5000.0 + rate * ticks[0]
 
-    _time.monotonic = mono
-    _time.perf_counter = mono
+    class _TimeProxy:
+        monotonic = staticmethod(mono)
+        perf_counter = staticmethod(mono)
+        monotonic_ns = staticmethod(lambda: int(mono() * 1e9))
+        perf_counter_ns = staticmethod(lambda: int(mono() * 1e9))
+
+        def __getattr__(self, name):
+            return getattr(_time, name)
+
+    proxied = []
+    for mname, mod in list(_sys.modules.items()):
+        if mname.startswith("rl_blox") and getattr(mod, "time", None) is _time:
+            mod.time = _TimeProxy()
+            proxied.append(mod)
     try:
         yield
     finally:
         _time.time, _time.time_ns = real_time, real_ns
-        _time.monotonic, _time.perf_counter = real_mono, real_perf
+        for mod in proxied:
+            mod.time = _time
         _rb.np = real_np
 
 
